@@ -17,6 +17,7 @@ RULE = ("every valid metric class (and the obsfcst table) x a random axis (all 1
         "columns, not all NaN.")
 RULE += " " + "Duplicate -leg names and identical file names in different directories occur (each column must still carry its own file's scores)."
 RULE += " " + 'obsfcst quantile columns; thresholds in the order given; shards rotate the process time zone.'
+RULE += " " + "Round 10: rapid-update run series; the row count is compared with the partition computed from the inputs, not with verif's own axis size."
 ASSUMPTIONS = ["a mismatch of one unit in the last printed digit is excused (decimal rounding at the formatting boundary)"]
 REQUIRED_COUNTERS = ["tables", "values_compared", "descriptors_compared", "file_vs_stdout", "acc_tables", "refcli_tables", "audit_open_write"]
 ROTATE_TZ = True       # dates, times of day and time labels are UTC whatever the time zone of the machine
